@@ -389,9 +389,11 @@ def run_recipe(d, recipe, limit=120):
     try:
         with time_limit(limit):
             for step in recipe:
-                run_step(d, step)
+                # the target is inspected even when the step fails (only collections that carry the format
+                # marker count then): a refused or crashed write must not leave an invalid cooler behind
                 if step["out"] not in files:
                     files.append(step["out"])
+                run_step(d, step)
         return "ok", files
     except Timeout:
         return "timeout", files
@@ -619,6 +621,83 @@ def gen_option_grid(rng):
                     sub = sorted(rng.sample(cells, rng.randint(0, len(cells)))) if cells else []
                     cellsd[name] = disorder(rng, rand_records(rng, sub), how)
                 st = dict(base, op="scool", out="g.scool", cells=cellsd, ensure_sorted=es)
+            R.append([st])
+    return R
+
+
+BAD_KINDS = ("bin1_large", "bin2_large", "bin1_neg", "bin2_neg", "both_large", "both_neg")
+
+
+def bad_record(rng, n, kind, symm):
+    """one record with exactly the named id(s) out of [0, n); the other id is valid"""
+    big = rng.choice([n, n + 3])
+    neg = rng.choice([-1, -2])
+    ok = rng.randrange(n)
+    b1, b2 = {"bin1_large": (big, ok), "bin2_large": (ok, big), "bin1_neg": (neg, ok), "bin2_neg": (ok, neg),
+              "both_large": (big, big), "both_neg": (neg, neg)}[kind]
+    return [b1, b2, rng.randint(1, 9)]
+
+
+def inject(rng, chunks, rec, where):
+    """put the record into the first / a middle / the last non-trivial position of a chunk list"""
+    chunks = [list(c) for c in chunks] or [[]]
+    k = {"first": 0, "middle": len(chunks) // 2, "last": len(chunks) - 1}[where]
+    pos = {"first": 0, "middle": len(chunks[k]) // 2, "last": len(chunks[k])}[where]
+    chunks[k].insert(pos, rec)
+    return chunks
+
+
+def gen_invalid_grid(rng, thorough=False):
+    """Invalid-input recipes: one out-of-range bin id (each side, too large / negative / both) injected into
+    the first, a middle or the last chunk of an otherwise valid stream, for every producer that takes records,
+    both storage modes, triucheck on and off, dupcheck / ensure_sorted rotating — always with boundscheck=True.
+    The expected outcome is a refusal; whatever is nevertheless written must satisfy the whole schema."""
+    import itertools
+    R = []
+    k = 0
+    for prod in ("create", "create_cooler_ordered", "frame", "unordered", "scool"):
+        for symm, tc in itertools.product([True, False], repeat=2):
+            for kind in BAD_KINDS:
+                wheres = ("first", "middle", "last") if thorough else (("first", "middle", "last")[k % 3],)
+                for where in wheres:
+                    k += 1
+                    dc, es = bool(k & 1), bool(k & 2)
+                    widths = rand_widths(rng, maxchrom=2, maxbins=4)
+                    n = nbins_of(widths)
+                    cells = rand_cells(rng, n, symm, rng.choice(["sparse", "dense", "gaprows"]))
+                    recs = rand_records(rng, sorted(cells))
+                    bad = bad_record(rng, n, kind, symm)
+                    how = "cols" if es else "sorted"
+                    opts = {"boundscheck": True, "triucheck": tc, "dupcheck": dc}
+                    base = {"out": "bad.cool", "group": "", "append": False, "widths": widths, "symm": symm, "opts": opts,
+                            "expect": "refuse", "bad": [kind, where, bad]}
+                    if prod in ("create", "create_cooler_ordered"):
+                        chunks = inject(rng, [disorder(rng, ch, how) for ch in row_partition(rng, recs, maxchunks=3)], bad, where)
+                        st = dict(base, op="create", input="ordered", chunks=chunks, ensure_sorted=es,
+                                  api="create" if prod == "create" else "create_cooler")
+                    elif prod == "frame":
+                        st = dict(base, op="create", input="frame", chunks=inject(rng, [disorder(rng, recs, "shuffle")], bad, where))
+                    elif prod == "unordered":
+                        chunks = [disorder(rng, rand_records(rng, sorted(rng.sample(cells, rng.randint(0, len(cells))))), how)
+                                  for _ in range(3)]
+                        st = dict(base, op="create", input="unordered", chunks=inject(rng, chunks, bad, where), ensure_sorted=es,
+                                  mergebuf=rng.choice([1, 3]), max_merge=rng.choice([1, 200]))
+                    else:
+                        cl = [disorder(rng, rand_records(rng, sorted(rng.sample(cells, rng.randint(0, len(cells))))), how)
+                              for _ in range(3)]
+                        cl = inject(rng, cl, bad, where)
+                        st = dict(base, op="scool", out="bad.scool", cells={f"c{i}": c for i, c in enumerate(cl)}, ensure_sorted=es)
+                    R.append([st])
+    # the text loader (COO ids) refuses them too
+    for j, kind in enumerate(BAD_KINDS):
+        for where in (("first", "middle", "last") if thorough else (("first", "middle", "last")[j % 3],)):
+            st = gen_load(rng, "badl.cool")
+            while st["format"] != "coo" or st["one_based"]:
+                st = gen_load(rng, "badl.cool")
+            n = nbins_of(st["widths"])
+            st["lines"] = inject(rng, [st["lines"]], bad_record(rng, n, kind, st["symm"]), where)[0]
+            st["expect"] = "refuse"
+            st["bad"] = [kind, where]
             R.append([st])
     return R
 
